@@ -34,7 +34,9 @@ def gen_scenarios(rnd: random.Random, count, max_n=6, max_cap=3, max_conc=3, all
         out.append({'n': n, 'cap': cap, 'conc': conc, 'retexc': rnd.random() < 0.5, 'fail': fail,
                     'prefail': prefail, 'srcfail': srcfail, 'srcbase': srcbase, 'maybreak': brk is not None,
                     'mode': 'sync', 'variant': variant, 'retx': rnd.random() < 0.6, 'break_at': brk,
-                    'usepre': bool(prefail) or rnd.random() < 0.3})
+                    'usepre': bool(prefail) or rnd.random() < 0.3,
+                    # an idle input stream: virtual pause (units of 0.01 s) before the source yields element k
+                    'srcdelay': ([rnd.choice([0, 0, 0, 12, 15, 30]) for _ in range(n + 2)] if rnd.random() < 0.35 else None)})
     return out
 
 
@@ -63,6 +65,7 @@ def _make_scenario(sc):
 
     n, fail, prefail = sc['n'], set(sc['fail']), set(sc['prefail'])
     srcfail, srcbase = sc['srcfail'], sc['srcbase']
+    srcdelay = sc.get('srcdelay')
 
     class Src:
         def __init__(self):
@@ -73,6 +76,9 @@ def _make_scenario(sc):
 
         def __next__(self):
             k = self.pos + 1
+            if srcdelay and srcdelay[min(k, len(srcdelay) - 1)]:
+                import time
+                time.sleep(srcdelay[min(k, len(srcdelay) - 1)] * 0.01)
             if srcfail and k == srcfail:
                 detsched.emit('SrcRaise')
                 if srcbase:
@@ -212,7 +218,9 @@ def behaviour_to_item(beh):
     if p.get('mode') != 'sync':
         return None
     script, brk, prev = [], None, beh[0][1]
+    from mbt.tlc import split_action
     for act, st in beh[1:]:
+        act = split_action(act)[0]
         if act not in ROLE_EVENT:
             prev = st
             continue
@@ -226,7 +234,7 @@ def behaviour_to_item(beh):
             brk = len(st['out'])
         script.append(step)
         prev = st
-    if any(a == 'ConsNeverStarted' for a, _ in beh):
+    if any(a.startswith('ConsNeverStarted') for a, _ in beh):
         return None
     sc = {'n': p['n'], 'cap': p['cap'], 'conc': p['conc'], 'retexc': p['retexc'], 'fail': list(p['fail']),
           'prefail': list(p['prefail']), 'srcfail': p['srcfail'], 'srcbase': p['srcbase'],
@@ -257,7 +265,8 @@ def run_job(job):
             sc = dict(sc, _gates=gates)
             guided = detsched.GuidedStrategy(item['script'], _role_of, gates, seed=seed)
         root = _make_scenario(sc)
-        res = detsched.run(root, guided or make_strategy(strat, seed), max_steps=80000, stall_timeout=60)
+        res = detsched.run(root, guided or make_strategy(strat, seed), max_steps=80000, stall_timeout=60,
+                           lag=0.1 if sc.get('srcdelay') else 0.0, max_idle_vtime=100.0)
         sc = {k: v for k, v in sc.items() if k != '_gates'}
         n_exec += 1
         evs = strip(res.trace)
